@@ -714,7 +714,7 @@ def fill_event(rnd, drv, t):
     if t == EV_COMMIT_FAIL:
         return (t, rnd.choice([FK_KAFKA, FK_KAFKA, FK_OOR, FK_OTHER, FK_CANCELLED, FK_GEN]))
     if t == EV_PLAN:
-        return (t, rnd.choice([0] * 12 + [1, 2, 2]), rnd.choice([0, 0, 0, 0, 1, 2, 2, 2]))
+        return (t, rnd.choice([0] * 12 + [1, 2, 2, 3]), rnd.choice([0, 0, 0, 0, 1, 2, 2, 2]))
     if t == EV_PROC_FIRE:
         return (t, rnd.choice([1, 1, 1, 0]))
     if t == EV_FETCH_OK:
@@ -756,7 +756,7 @@ def small_alphabet(drv):
     base = last[-1][0] if last else 0
     al = [(EV_START, 0), (EV_STOP,), (EV_SHUTDOWN,), (EV_COMMIT,),
           (EV_REQ_FAIL, FK_KAFKA), (EV_FETCH_OK, [base, base + 1], 0), (EV_FETCH_OK, [], 1),
-          (EV_PLAN, 0, 0), (EV_PLAN, 1, 0), (EV_PROC_FIRE, 1), (EV_PROC_FIRE, 0),
+          (EV_PLAN, 0, 0), (EV_PLAN, 1, 0), (EV_PLAN, 3, 0), (EV_PROC_FIRE, 1), (EV_PROC_FIRE, 0),
           (EV_COMMIT_OK,), (EV_COMMIT_FAIL, FK_KAFKA), (EV_FIRE_RETRY,), (EV_FIRE_COMMIT_RETRY,), (EV_TICK,)]
     return [e for e in al if drv.enabled(e)]
 
